@@ -3,6 +3,7 @@
 Hypothesis RuleBasedStateMachine over MemoryControllerHub with a byte-array-per-device model and the first-match rule,
 plus a deterministic edge sweep (every address around every device boundary x every size) that needs no library.
 """
+import random
 import hypothesis
 from hypothesis import settings, strategies as st, HealthCheck, Phase
 from hypothesis.stateful import RuleBasedStateMachine, rule, invariant, initialize, run_state_machine_as_test
@@ -288,6 +289,42 @@ def shard_sweep(idx):
     return acc
 
 
+def shard_big(seed, count):
+    """devices larger than any internal granule an implementation might use (128 KiB and more) that begin at addresses which are not multiples of the
+    access size: accesses around every 4 KiB / 64 KiB multiple - counted from the beginning of the device and in absolute terms - and around both ends"""
+    acc = Acc()
+    rng = random.Random(seed)
+    for _ in range(count):
+        beg_off = rng.choice((0, 1, 2, 3, 5, 6, 7))
+        size = 0x20000 + rng.choice((0, 1, 3, 0x100, 0x10000))
+        lay = [[0x20000, beg_off, size]]
+        if rng.random() < 0.4:
+            lay.append([0x20000, beg_off + size, rng.choice((1, 7, 0x40))])      # a small device abutting it
+        model = Model([tuple(x) for x in lay])
+        b, e, _m = model.devs[0]
+        pts = set()
+        for base in [b + k * 0x10000 for k in range(0, 4)] + [(b + k * 0x10000) & ~0xFFFF for k in range(1, 4)] + [b + 0x1000, (b + 0x2000) & ~0xFFF, e]:
+            for d in range(-9, 10):
+                pts.add((base + d) & PA_MASK)
+        pts = sorted(pts)
+        ops = []
+        for _w in range(rng.randrange(6, 16)):
+            sz = rng.choice(SIZES)
+            ops.append(['w', rng.choice(pts), sz, rng.getrandbits(8 * sz)])
+            if rng.random() < 0.5:
+                ops.append(['r', rng.choice(pts), rng.choice(SIZES), 0])
+        touched = sorted({o[1] for o in ops})
+        for a in touched[:12]:
+            ops.append(['r', a, rng.choice(SIZES), 0])
+            ops.append(['r', (a - rng.choice((1, 2, 4))) & PA_MASK, rng.choice(SIZES), 0])
+        case = {'layout': lay, 'ops': ops}
+        msg = run_case(case)
+        acc.case(True, ('big', beg_off, size, repr(ops)), cls='big-device', sample={'layout': lay, 'ops': ops[:4]})
+        if msg:
+            acc.violation('C16:big-device:' + bucket_of(msg), minimise(case), msg)
+    return acc
+
+
 def from_list_case(lay, ops):
     """MemoryControllerHub.from_memory_list called twice with the SAME list / dict objects (how an embedder builds several cores from one memory map):
     each hub owns its devices - a write through one is invisible through the other, a later hub starts zero-filled, the caller's list is not modified"""
@@ -410,6 +447,7 @@ def run(ctx):
     steps = ctx.n(40, 60)
     tasks = [(shard_machine, (ctx.shard_seed(i), ex, steps, not ctx.quick)) for i in range(16)]
     tasks += [(shard_sweep, (i,)) for i in range(12)]
+    tasks += [(shard_big, (ctx.shard_seed(600 + i), ctx.n(60, 1500))) for i in range(4)]
     tasks += [(shard_from_list, (ctx.shard_seed(80), ctx.n(300, 5000)))]
     tasks += [(shard_edge_steps, (ctx.shard_seed(50 + i), ctx.n(400, 8000))) for i in range(4)]
     ctx.pmap(_dispatch, tasks)
